@@ -219,6 +219,8 @@ def r01_7(ctx) -> None:
     ctx.rule("R01.7", "an item of a user iterable is identity-compared only with a library-private sentinel, never "
                       "with None / a constant (None is a legal item)")
     for u in real_units(ctx):
+        if u.module.short not in ("builtins", "itertools", "heapq", "_core", "asynctools", "functools"):
+            continue  # the iterator tools and aggregations (contextlib's generator protocol is C13's)
         cfg = cfg_of(u)
         seen = set()
         for n in cfg.nodes:
